@@ -547,6 +547,10 @@ class Tr:
             return "?"
         if k == "struct":
             return self.norm_ty(e[1][-1])
+        if k == "index":
+            if (self.ty(e[1]) or "").startswith("Matrix3") and e[2][0] == "tuple":
+                return "f64"
+            return "?"
         if k == "try":
             t = self.ty(e[1])
             m = re.fullmatch(r"(?:Option|Result)<(.+)>", t or "")
@@ -774,6 +778,14 @@ class Tr:
                 else:
                     arms.append("| %s_%s => %s" % (t, pat[-1], self.ex(body)))
             return "(match %s with %s end)" % (self.ex(e[1]), " ".join(arms))
+        if k == "index":
+            t = self.ty(e[1]) or ""
+            if t.startswith("Matrix3") and e[2][0] == "tuple" and len(e[2][1]) == 2 and all(x[0] == "num" for x in e[2][1]):
+                i, j = int(e[2][1][0][1]), int(e[2][1][1][1])
+                if 0 <= i < 3 and 0 <= j < 3:
+                    # nalgebra m[(row, column)]; the model holds a 3x3 matrix as its three rows (Model.AlignParams.mrow)
+                    return "(%s (mrow %s %d%%nat))" % (["x3", "y3", "z3"][j], self.ex(e[1]), i)
+            raise Unsupported("index expression")
         if k == "block":
             return self.block_expr(e[1])
         raise Unsupported("expression kind " + k)
